@@ -459,6 +459,16 @@ type c18Embedded struct {
 	C18Common
 	RC uint32 `avp:"Result-Code"`
 }
+
+// an embedded struct whose TYPE is unexported (its fields are exported and settable)
+type c18common struct {
+	Host  string `avp:"Origin-Host"`
+	Realm string `avp:"Origin-Realm"`
+}
+type c18EmbeddedUnexported struct {
+	RC uint32 `avp:"Result-Code"`
+	c18common
+}
 type c18EmbeddedAfter struct {
 	RC uint32 `avp:"Result-Code"`
 	C18Common
@@ -566,6 +576,13 @@ func c18Statics() []c18Static {
 			}
 			h, r := strs[v%3], strs[v/3%3]
 			return &c18Embedded{C18Common: C18Common{h, r}, RC: 2001}, []refcodec.Node{strn(264, h), strn(296, r), u32n(268, 2001)}, true
+		}},
+		{"embedded-struct-of-unexported-type", func(v int) (interface{}, []refcodec.Node, bool) {
+			if v >= 9 {
+				return nil, nil, false
+			}
+			h, r := strs[v%3], strs[v/3%3]
+			return &c18EmbeddedUnexported{RC: 2001, c18common: c18common{h, r}}, []refcodec.Node{u32n(268, 2001), strn(264, h), strn(296, r)}, true
 		}},
 		{"embedded-after-tagged-field", func(v int) (interface{}, []refcodec.Node, bool) {
 			if v >= 9 {
@@ -774,7 +791,7 @@ func runC18(ctx *ev.Ctx) {
 			}
 		}
 	}
-	ctx.Rule = "struct types built with reflect.StructOf: one field for each of 21 dictionary AVPs (including a vendor-specific AVP whose must attribute does not list V and a vendor-less one whose must does) (every scalar data type, a vendor-specific AVP, Float32/64, IPv4/6, IPFilterRule, QoSFilterRule from a generated dictionary) x each Go holder type (native scalar, datatype type, net.IP, []byte, time.Time) x wrapper {T, *T, []T, []*T} x nine tag forms (plain, omitempty, each with a second key before/after, other keys carrying their own ,omitempty option before/after) x values {boundary atoms; nil pointer; nil, empty, 1-, 2- and 4-element slices}; plus static shapes: nested struct, pointer to struct, slice of structs with omitempty members, slice of pointers, anonymous embedded struct (first, after a tagged field, in the middle), group in group, AVP / *AVP / []*AVP fields; the struct shapes also in a message carrying a private dictionary that defines every name used with another code, other flags and vendor ids (members of nested structs must be resolved through the message's dictionary too). Every other case marshals into a message that already holds an AVP and has been marshalled into before. Oracle: the AVP bytes Marshal produces equal the AVPs built by hand from the reference dictionary entry (code, vendor id, M from must, V from vendor, typed value); Unmarshal directly and after Serialize+ReadMessage reproduces the field values (nil == empty for slices, times by second, floats by bits)."
+	ctx.Rule = "struct types built with reflect.StructOf: one field for each of 21 dictionary AVPs (including a vendor-specific AVP whose must attribute does not list V and a vendor-less one whose must does) (every scalar data type, a vendor-specific AVP, Float32/64, IPv4/6, IPFilterRule, QoSFilterRule from a generated dictionary) x each Go holder type (native scalar, datatype type, net.IP, []byte, time.Time) x wrapper {T, *T, []T, []*T} x nine tag forms (plain, omitempty, each with a second key before/after, other keys carrying their own ,omitempty option before/after) x values {boundary atoms; nil pointer; nil, empty, 1-, 2- and 4-element slices}; plus static shapes: nested struct, pointer to struct, slice of structs with omitempty members, slice of pointers, anonymous embedded struct (first, after a tagged field, in the middle, of an unexported type), group in group, AVP / *AVP / []*AVP fields; the struct shapes also in a message carrying a private dictionary that defines every name used with another code, other flags and vendor ids (members of nested structs must be resolved through the message's dictionary too). Every other case marshals into a message that already holds an AVP and has been marshalled into before. Oracle: the AVP bytes Marshal produces equal the AVPs built by hand from the reference dictionary entry (code, vendor id, M from must, V from vendor, typed value); Unmarshal directly and after Serialize+ReadMessage reproduces the field values (nil == empty for slices, times by second, floats by bits)."
 	ctx.Assume = []string{"holder types are those for which the reflect code has a conversion path (AssignableTo / ConvertibleTo); Address holders carry IPv4 / IPv6 only"}
 }
 
